@@ -547,6 +547,22 @@ func init() {
 				sp, pl := c11Spec(rng, i)
 				out = append(out, drv.Scenario{Kind: pl, Seed: seed, Params: mustJSON(sp), TimeoutS: 120, Solo: true})
 			}
+			// a save that is under way when a rebalance closes the stream (injected delay at the guarded hook point save.marks):
+			// what the store held before is still there when the stream is reopened
+			sr := rand.New(rand.NewSource(seed*19 + 4))
+			for j := 0; j < n/25; j++ {
+				sp := &SessSpec{NumVB: 3 + sr.Intn(4), Nodes: 1, AckSeed: sr.Int63(), Backend: []string{"file", "mem", "cb"}[j%3], Backlog: map[int][][]ItemSpec{}, Membership: "kubernetesHa",
+					RebalanceDelayMs: 600, FirstInfo: [2]int{1, 1}, PNow: 1}
+				o := &HistOpts{NumVB: sp.NumVB, PSystem: 0.04, PSeqAdv: 0.1, MaxItems: 4}
+				ctr := 0
+				for vb := 0; vb < sp.NumVB; vb++ {
+					sp.Backlog[vb] = append(sp.Backlog[vb], genSnap(sr, o, &ctr))
+				}
+				sp.Steps = []Step{{Op: "barrier"}, {Op: "commit"}, {Op: "append", VB: 0, Items: genSnap(sr, o, &ctr)}, {Op: "barrier"},
+					{Op: "armhook", Sel: "save.marks", N: 1, Ms: 250}, {Op: "commitasync"}, {Op: "sleep", Ms: 40},
+					{Op: "notify", Sel: "put", N: 1, VB: 2}, {Op: "waitcycles", N: 1, Ms: 5000}, {Op: "quiet", Ms: 1500}, {Op: "barrier"}, {Op: "commit"}}
+				out = append(out, drv.Scenario{Kind: "save-across-close", Seed: seed, Params: mustJSON(sp), TimeoutS: 120, Solo: true})
+			}
 			nd := 12
 			if tier == "thorough" {
 				nd = 120
